@@ -118,6 +118,20 @@ def decode_entry(data, spk_ids):
     return (pid, ("aware", micros(exp)))
 
 
+WS = [" ", "\n", "\t", "\r\n", "\u00a0", "\t\n", "  "]
+
+
+def pad_whitespace(r, data):
+    """White space added at either end of the certificate text AFTER it was signed: other bytes, not signed."""
+    text = data.decode("utf-8")
+    where = r.choice(["after", "before", "both"])
+    if where != "after":
+        text = r.choice(WS) + text
+    if where != "before":
+        text = text + r.choice(WS)
+    return text.encode("utf-8")
+
+
 def gen_case(r, malformed=False):
     """-> dict(keys=[gm idx], certs=[dict(kind, data, sig, truth)], server=idx, times=[datetime])"""
     w = World()
@@ -132,7 +146,7 @@ def gen_case(r, malformed=False):
     certs = []
     expiries = []
     ncert = r.choice([0, 1, 1, 2, 2, 3, 4])
-    kinds = ["valid", "valid", "valid", "expired", "future", "wrong-signer", "tampered-bytes", "tampered-sig", "other-server"]
+    kinds = ["valid", "valid", "valid", "expired", "future", "wrong-signer", "tampered-bytes", "tampered-sig", "other-server", "ws-padded"]
     if malformed:
         kinds = kinds + ["signed-not-json", "signed-missing-member", "signed-naive-expiry", "signed-not-object", "signed-bad-date"] * 2
     for _ in range(ncert):
@@ -171,6 +185,14 @@ def gen_case(r, malformed=False):
         sig = w.sign(g, data)
         if kind.startswith("signed-"):
             truth["genuine"] = False          # not a certificate the rule speaks about
+        if kind == "ws-padded":
+            # an otherwise valid, unexpired certificate for this server
+            exp = base + timedelta(days=r.randrange(1, 400))
+            truth["expires"] = exp
+            orig = cert_bytes(pk, exp.isoformat())
+            sig = w.sign(g, orig)
+            data = pad_whitespace(r, orig)
+            truth["genuine"] = False
         if kind == "tampered-bytes":
             how = r.choice(["later-expiry", "retarget", "flip"])
             if how == "later-expiry":
@@ -446,7 +468,7 @@ def draw_certs(r, w, keys, me, base, n=None):
     """A certificate list as a storage server would announce it (all UTF-8, base32-able)."""
     out = []
     for _ in range(r.choice([0, 1, 1, 2, 3]) if n is None else n):
-        kind = r.choice(["valid", "valid", "valid", "expired", "soon", "tampered-bytes", "tampered-sig", "other-server", "wrong-signer"])
+        kind = r.choice(["valid", "valid", "valid", "expired", "soon", "tampered-bytes", "tampered-sig", "other-server", "wrong-signer", "ws-padded", "ws-padded"])
         g = r.choice(keys) if keys else r.randrange(NGM)
         other = (me + 1 + r.randrange(NSRV - 1)) % NSRV
         exp = base + timedelta(days=r.randrange(1, 400))
@@ -463,7 +485,10 @@ def draw_certs(r, w, keys, me, base, n=None):
                 g = r.choice(others)
         data = cert_bytes(key("S%d" % names)[2], exp.isoformat())
         sig = w.sign(g, data)
-        if kind == "tampered-bytes":
+        if kind == "ws-padded":
+            data = pad_whitespace(r, data)          # `sig` stays the signature over the unpadded text
+            genuine = False
+        elif kind == "tampered-bytes":
             orig = cert_bytes(key("S%d" % other)[2], exp.isoformat())
             sig = w.sign(g, orig)
             genuine = False
